@@ -68,7 +68,8 @@ impl<'a> Display<'a> {
         }
 
         let dot = if it.peek().is_some() {
-            true
+            // Only digits which are not zero count as being cut off.
+            it.clone().any(|d| d != '0') || !rem.is_zero()
         } else {
             let remaining = self.spec.limit - used;
 
@@ -81,7 +82,7 @@ impl<'a> Display<'a> {
 
                 it.next().is_some()
             } else {
-                false
+                !rem.is_zero()
             }
         };
 
